@@ -121,7 +121,20 @@ def sole_dependency_schema():
     types.append(S.Composite("CR", [S.Ref("rt", fresh("T")), S.Ref("ra", fresh("A")), S.Ref("re", fresh("E")), S.Ref("rs", fresh("S")),
                                     S.Ref("rc", fresh("C")), S.Composite("inl", [S.Ref("it", fresh("T")), S.Ref("ie", fresh("E"))])]))
     msg(fields=[S.Field("c", nid(), "CR")])
-    s = S.Schema("soledep", id=3, version=1, types=types, messages=msgs, header_type="hdrX", description="sole dependencies", name="soledep")
+    # sbeppc resolves type references case-insensitively: the same dependency directions with a reference whose
+    # letter case differs from the definition (the generated #include must name the definition's file)
+    msg(fields=[S.Field("f", nid(), fresh("T").lower())])
+    msg(fields=[S.Field("f", nid(), fresh("E").lower())])
+    msg(fields=[S.Field("f", nid(), fresh("C").lower())])
+    msg(groups=[S.Group("g", nid(), [S.Field("f", nid(), fresh("S").lower())])])
+    msg(data=[S.Data("d", nid(), fresh("V").lower())])
+    msg(groups=[S.Group("g", nid(), [S.Field("x", nid(), "uint8")], [], [S.Data("d", nid(), fresh("V").lower())])])
+    msg(groups=[S.Group("g", nid(), [S.Field("x", nid(), "uint8")], dimension_type=fresh("D").lower())])
+    e6 = fresh("E")
+    msg(fields=[S.Field("k", nid(), "uint8", presence="constant", value_ref=e6.lower() + ".A"), S.Field("x", nid(), "uint16")])
+    types.append(S.Composite("CRL", [S.Ref("rt", fresh("T").lower()), S.Ref("re", fresh("E").lower()), S.Ref("rc", fresh("C").lower())]))
+    msg(fields=[S.Field("c", nid(), "crl")])
+    s = S.Schema("soledep", id=3, version=1, types=types, messages=msgs, header_type="HDRx", description="sole dependencies", name="soledep")
     refmodel.fix_offsets(s)
     refmodel.fit_ids_to_header(s)
     return s
